@@ -307,8 +307,6 @@ class C20(core.Check):
         super().__init__()
         self._memo = (None, None)
         self._keep = None
-        self._in_main = False
-        self._sig_seen = {}
 
     # ------------------------------------------------------------------ implementation
     def run_impl(self, case):
@@ -655,26 +653,7 @@ class C20(core.Check):
             return None
         return len(mm.group(1)), len(mm.group(2)), len(mm.group(3))
 
-    SIG_CAP = 8
-
     def oracle(self, case, res):
-        """core keeps at most 200 oracle messages per run: so that one frequent message class (e.g. a recorded known
-        finding) cannot crowd out a different, new one, the main loop passes on at most SIG_CAP messages per signature
-        (every message still counts in the evidence distribution).  Shrinking and --replay are not capped."""
-        msgs = self.judge(case, res)
-        if not self._in_main:
-            return msgs
-        self._in_main = False
-        out = []
-        for m in msgs:
-            sig = self.signature(case, m)
-            n = self._sig_seen.get(sig, 0) + 1
-            self._sig_seen[sig] = n
-            if n <= self.SIG_CAP:
-                out.append(m)
-        return out
-
-    def judge(self, case, res):
         if case.get("kind") == "thumb":
             return self.oracle_thumb(case, res)
         if case.get("kind") == "listbox":
@@ -839,13 +818,8 @@ class C20(core.Check):
         return re.sub(r"-?\d+", "N", re.sub(r"\[.*?\]|'.*?'", "_", msg))[:120]
 
     def distribution(self, case, res, dist):
-        self._in_main = True        # core.run's main loop calls distribution() right before oracle()
-
         def inc(k):
             dist[k] = dist.get(k, 0) + 1
-        for sig, n in self._sig_seen.items():
-            if n > self.SIG_CAP:
-                dist["oracle-messages-over-cap:" + sig[:60]] = n - self.SIG_CAP
         kind = case.get("kind") or case["child"]["kind"]
         inc("child:" + kind)
         if kind in ("thumb", "listbox"):
